@@ -398,10 +398,12 @@ def _integrands():
                     lambda p, x: p[0] * math.atan(x),
                     [lambda p, x: math.atan(x)],
                     lambda p, x: p[0] / (1 + x * x)),
+        # a function without parameters (empty p): only the limits can be observables
+        'exp-noparam': (lambda p, x: a.exp(-x), [], lambda p, x: -math.exp(-x), [], lambda p, x: math.exp(-x)),
     }
 
 
-INTEGRANDS = ['poly', 'exp', 'sin', 'cos+c', 'lorentz', 'gauss-x', 'log']
+INTEGRANDS = ['poly', 'exp', 'sin', 'cos+c', 'lorentz', 'gauss-x', 'log', 'exp-noparam']
 
 SLOT_ASSIGN = {
     'equal': lambda i: 'single',
